@@ -34,6 +34,7 @@ STRENGTHENED = {
  "C19-m17": "missed at first: the sizes handed to the builder were small; they now also cover 0, 1, the neighbourhoods of 2^32 and 2^63 and usize::MAX, globally, individually and in last-set-wins sequences, on PushState and on a macro fixture",
  "C12-m19": "missed at first: the default close probability 1/(n+1) was only measured for n <= 31 instructions; it is now also measured for instruction sets of 200000 and 2^20-1 instructions (16e6 genes each in the quick tier, enough to tell 1/2^20 from 1/65535)",
  "C13-m20": "missed at first: weights of the dynamic list were taken from the same 32-bit multisets as the static chains although it accepts usize weights; proportionality is now also measured with weights beyond 2^32 (3*2^32 : 2^32, 2^40 : 2^31, usize::MAX/2 : usize::MAX/4 : 1, ...)",
+ "C12-m21": "missed at first: flip rates were 0, 0.01 ... 1; rates at the small end of the range (1e-3 down to 2^-24, 2^-25, 1e-9, 1e-20 and f32::MIN_POSITIVE) are now measured too - a rate that small means practically never, and a sampler that computes with 1 - rate in f32 turns it into always",
  "C15-m10": "missed at first: copies were never made through clone_from; EcIndividual and TestResults are now also copied with clone_from and Vec::clone_from (overwriting existing elements) and must equal their source",
  "C16-m9": "missed at first, as a harness build failure: the change adds Send + Sync bounds to Map's Vec impl, which C14's Rc-based probes do not satisfy, and all ec monitors lived in one binary. Every property now has its own binary, and C16's registry maps an operator over vectors of up to 2049 genomes",
  "C17-m10": "missed at first: the member errors used behind DynWeighted had no cause chain; a member whose error has a two-level source chain is now used and the whole chain must be reachable through source() from what the list reports",
